@@ -9,7 +9,7 @@ class C05(rowgen.RowGenProp):
     id = "C05"
     lean_module = "Wheatley.Props.C05"
     theorems = ["Wheatley.C05.reset_is_init", "Wheatley.C05.second_touch_fresh",
-                "Wheatley.C05.touch_after_reset_fresh"]
+                "Wheatley.C05.touch_after_reset_fresh", "Wheatley.C05.method_start_resets"]
     level_text = ("theorems: reset() of every state equals the freshly constructed generator, hence the rows after a "
                   "reset equal a fresh generator's rows for every pair of histories (unbounded). correspondence: "
                   "histories ops1;reset;ops2 with ops1 ending at every offset inside multi-change calls, all generator "
